@@ -881,8 +881,8 @@ func StaleFieldStores(fi *FuncInfo, name string) []string {
 						switch info.TypeOf(s.Rhs[i]).Underlying().(type) {
 						case *types.Map, *types.Slice, *types.Pointer:
 							if id, isId := ast.Unparen(s.Rhs[i]).(*ast.Ident); isId {
-								if obj := info.Uses[id]; obj != nil && !declaredInSameBlock(fi, obj, s) {
-									out = append(out, fmt.Sprintf("%s = %s: %s is declared outside the block of the store, all elements share it (%s)", types.ExprString(l), id.Name, id.Name, pos(s)))
+								if obj := info.Uses[id]; obj != nil && sharedAcrossIterations(fi, obj, s) {
+									out = append(out, fmt.Sprintf("%s = %s: %s is declared outside the loop of the store, all elements share it (%s)", types.ExprString(l), id.Name, id.Name, pos(s)))
 								}
 							}
 						}
@@ -893,6 +893,16 @@ func StaleFieldStores(fi *FuncInfo, name string) []string {
 			if id, ok := s.Key.(*ast.Ident); ok && id.Name == name {
 				if _, isSlice := info.TypeOf(s.Value).Underlying().(*types.Slice); isSlice && !okExpr(nil, s.Value) {
 					out = append(out, fmt.Sprintf("%s: %s (%s)", name, types.ExprString(s.Value), pos(s)))
+				}
+				// T{F: v} built inside a loop with v a map or pointer declared outside that loop: one object shared
+				// by the values of all iterations
+				switch info.TypeOf(s.Value).Underlying().(type) {
+				case *types.Map, *types.Pointer:
+					if vid, isId := ast.Unparen(s.Value).(*ast.Ident); isId {
+						if obj := info.Uses[vid]; obj != nil && sharedAcrossIterations(fi, obj, s) {
+							out = append(out, fmt.Sprintf("%s: %s: %s is declared outside the loop that builds the value, all iterations share it (%s)", name, vid.Name, vid.Name, pos(s)))
+						}
+					}
 				}
 			}
 		}
@@ -1289,4 +1299,29 @@ func declaredInSameBlock(fi *FuncInfo, obj types.Object, stmt ast.Stmt) bool {
 		return false
 	}
 	return found.Pos() <= obj.Pos() && obj.Pos() < found.End()
+}
+
+// sharedAcrossIterations: node lies inside a loop body and obj (a variable) is declared outside the innermost such loop.
+func sharedAcrossIterations(fi *FuncInfo, obj types.Object, node ast.Node) bool {
+	if _, isVar := obj.(*types.Var); !isVar {
+		return false
+	}
+	var inner *ast.BlockStmt
+	ast.Inspect(fi.Decl.Body, func(n ast.Node) bool {
+		var body *ast.BlockStmt
+		switch l := n.(type) {
+		case *ast.ForStmt:
+			body = l.Body
+		case *ast.RangeStmt:
+			body = l.Body
+		}
+		if body != nil && body.Pos() <= node.Pos() && node.End() <= body.End() {
+			inner = body // later (nested) matches overwrite earlier ones: the innermost wins
+		}
+		return true
+	})
+	if inner == nil {
+		return false
+	}
+	return !(inner.Pos() <= obj.Pos() && obj.Pos() < inner.End())
 }
